@@ -153,24 +153,37 @@ def check_equivariance(case):
     (p, sh), t, g = case
     p, t = tuple(p), tuple(t)
     shs = frozenset(tuple(c) for c in sh)
-    M, T = MeshPatt(Perm(p), shs), Perm(t)
+    T = Perm(t)
     truth = ref.mesh_occ(p, shs, t)
-    if g == "anti":
-        gM = M.rotate().reverse()
-    else:
-        gM = LIB_MESH_OPS[g](M)
-    gT = LIB_PERM_OPS[g](T)
-    got = list(gM.occurrences_in(gT))
-    if bool(got) != bool(truth) or gT.contains(gM) != bool(truth) or gT.avoids(gM) == bool(truth):
-        return BAD("equivariance_mesh", {"g": g, "truth": truth, "image_occurrences": got})
-    if len(got) != len(truth):
-        return BAD("equivariance_mesh_count", {"g": g, "truth": truth, "image_occurrences": got})
-    # classical pattern as well
-    gP = LIB_PERM_OPS[g](Perm(p))
     ctruth = ref.occ(p, t)
-    cgot = list(gP.occurrences_in(gT))
-    if len(cgot) != len(ctruth) or gT.contains(gP) != bool(ctruth):
-        return BAD("equivariance_classical", {"g": g})
+    gT = LIB_PERM_OPS[g](T)
+    # "used": the pattern object has already been searched with (its search table is memoised)
+    # before its image is taken - images must not inherit stale search state
+    for history in ("fresh", "used"):
+        M = MeshPatt(Perm(p), shs)
+        P = Perm(p)
+        if history == "used":
+            if sorted(M.occurrences_in(T)) != truth or list(P.occurrences_in(T)) != ctruth:
+                return BAD("equivariance_prime_search", {"history": history})
+        if g == "anti":
+            gM = M.rotate().reverse()
+        else:
+            gM = LIB_MESH_OPS[g](M)
+        got = list(gM.occurrences_in(gT))
+        if bool(got) != bool(truth) or gT.contains(gM) != bool(truth) or gT.avoids(gM) == bool(truth):
+            return BAD("equivariance_mesh", {"g": g, "history": history, "truth": truth, "image_occurrences": got})
+        if len(got) != len(truth):
+            return BAD("equivariance_mesh_count", {"g": g, "history": history, "truth": truth, "image_occurrences": got})
+        # classical pattern as well
+        gP = LIB_PERM_OPS[g](P)
+        cgot = list(gP.occurrences_in(gT))
+        if len(cgot) != len(ctruth) or gT.contains(gP) != bool(ctruth):
+            return BAD("equivariance_classical", {"g": g, "history": history, "truth": ctruth, "image_occurrences": cgot})
+        # and the image of the image (back to the start for involutions) still searches correctly
+        if g in ("r", "c", "i", "rc", "anti"):
+            back = LIB_PERM_OPS[g](gP)
+            if list(back.occurrences_in(T)) != ctruth:
+                return BAD("equivariance_classical_back", {"g": g, "history": history})
     osz = len(ref.orbit_mesh(p, shs))
     return OK(osz == 8 and bool(ctruth), "equiv_contained" if truth else "equiv_avoided")
 
